@@ -323,8 +323,43 @@ pub(crate) async fn run_command_loop(
     }
   }
 
-  // 2. Drain any remaining commands that arrived after shutdown started.
-  //    This prevents panics from senders whose receivers have been dropped.
+  // 2. Refuse what can no longer be served. The mailbox is closed so that later API calls fail
+  //    fast instead of queueing a command nobody will read, and the commands that were queued
+  //    while the loop was finishing get their answer. Without this a close() racing with
+  //    Context::term() waits for a reply forever.
+  // (Drain, close, then drain once more for a command that slipped in between.)
+  let mut mailbox_closed = false;
+  loop {
+    let cmd = match command_receiver.try_recv() {
+      Ok(cmd) => cmd,
+      Err(_) if !mailbox_closed => {
+        let _ = command_receiver.close();
+        mailbox_closed = true;
+        continue;
+      }
+      Err(_) => break,
+    };
+    match cmd {
+      Command::UserClose { reply_tx } => {
+        let _ = reply_tx.send(Ok(()));
+      }
+      Command::UserBind { reply_tx, .. }
+      | Command::UserConnect { reply_tx, .. }
+      | Command::UserDisconnect { reply_tx, .. }
+      | Command::UserUnbind { reply_tx, .. }
+      | Command::UserSetOpt { reply_tx, .. }
+      | Command::UserMonitor { reply_tx, .. } => {
+        let _ = reply_tx.send(Err(ZmqError::InvalidState("Socket closed")));
+      }
+      Command::UserGetOpt { reply_tx, .. } => {
+        let _ = reply_tx.send(Err(ZmqError::InvalidState("Socket closed")));
+      }
+      Command::UserRecv { reply_tx, .. } => {
+        let _ = reply_tx.send(Err(ZmqError::InvalidState("Socket closed")));
+      }
+      _ => {} // Other commands have no reply channel
+    }
+  }
   // while let Some(cmd) = command_receiver.try_recv().ok() {
   //     // Log and drop the command, replying with an error if possible.
   //     tracing::warn!(handle = core_handle, cmd = %cmd.variant_name(), "Dropping command received during final shutdown.");
